@@ -6,4 +6,5 @@ DevOverUnread == {"FrameChecksum_OverUnread"}
 DevAbsPatch == {"Patch_AbsoluteOffset"}
 DevLenTrailer == {"Len_IncludesTrailer"}
 DevCsumBeforePatch == {"Checksum_BeforePatch"}
+DevScratch == {"Scratch_KeptOnError"}
 =============================================================================
